@@ -303,6 +303,10 @@ func c06LexicalSpace(c *fw.Ctx, std *c06FileSet) {
 		zRec("@", "1h", "IN", false, "SOA", zN("ns"), zN("hostmaster"), zW("1"), zW("7200"), zW("3600"), zW("1209600"), zW("300")),
 		zRec("a.b", "", "IN", false, "NS", zN("ns")),
 		zRec("a", "5", "", false, "CNAME", zN("x.example.")),
+		// rdata words spelled like type / class mnemonics: a lexer that classifies words must know that the type is behind it
+		zRec("a", "5", "IN", false, "TXT", zS("A"), zS("in"), zS("TYPE1")),
+		zRec("a", "5", "IN", false, "MX", zW("10"), zN("mx")),
+		zRec("a", "5", "", false, "CNAME", zN("in")),
 		zOrigin("sub"),
 		zTTL("1w2d3h4m5s"),
 		zGen("0-6/2", "h${1,3,x}", "7", "IN", "A", "10.0.0.$"),
